@@ -2,6 +2,7 @@ package stickycookie
 
 import (
 	"net/url"
+	"strings"
 )
 
 // RawValue is a no-op that returns the raw strings as-is.
@@ -9,7 +10,9 @@ type RawValue struct{}
 
 // Get returns the raw value.
 func (v *RawValue) Get(raw *url.URL) string {
-	return raw.String()
+	// ';' is not a valid cookie octet (net/http drops it from the value), which would
+	// turn the URL into a different one; its percent-encoded form denotes the same URL.
+	return strings.ReplaceAll(raw.String(), ";", "%3B")
 }
 
 // FindURL gets url from array that match the value.
